@@ -23,6 +23,7 @@ ASAN_ENV = {"ASAN_OPTIONS": "detect_leaks=0:abort_on_error=0:detect_stack_use_af
 
 FN = {"b64enc": "base64_encode", "b64dec": "base64_decode", "b64decfmt": "base64_decode_fmt",
       "bin2hex": "cvt_bin2hex", "hex2bin": "cvt_hex2bin", "xmlenc": "xml_encode", "xmldec": "xml_decode",
+      "repla": "mem_replace_arr", "replb": "mem_replace_arr", "replc": "mem_replace_arr",
       "n2s": "num2str", "s2n": "str2num", "utf8": "utf8_decode", "asn": "asn_parse", "bt": "bt_en_decode",
       "xml": "xml_get_val_arr", "xmlns": "xml_get_val_ns_arr", "xmlcnt": "xml_calc_tag_count_args",
       "args": "buf2args", "lines": "buf_get_next_line", "sptab": "calc_sptab_count", "ini": "ini_buf_gen",
@@ -39,6 +40,7 @@ GENS = [
     ("BsXmlDoc", "BsXmlDoc.cfg", "BsXmlDoc_thorough.cfg",
      ["SetWrap", "SetPre", "SetOpen", "SetContent", "SetClose", "SetPost", "CutIt"]),
     ("BsXmlEnt", "BsXmlEnt.cfg", "BsXmlEnt_thorough.cfg", ["AddPlain", "AddCoded"]),
+    ("BsReplArr", "BsReplArr.cfg", "BsReplArr_thorough.cfg", ["Grow"]),
     ("BsArgs", "BsArgs.cfg", "BsArgs_thorough.cfg", ["Grow"]),
     ("BsLines", "BsLines.cfg", "BsLines_thorough.cfg", ["Grow"]),
     ("BsIniSet", "BsIniSet.cfg", "BsIniSet_thorough.cfg", ["Set"]),
@@ -467,7 +469,7 @@ def run(ctx):
                              "h": "guard page directly after every block, gcc, no sanitizer",
                              "l": "guard page directly before every block, gcc, no sanitizer"}
     ctx.cov["failure_keys_seen"] = {k: v[2] for k, v in sorted(fails.items())}
-    ctx.cov["rule"] = ("cases = reachable states of the 14 generator specs in specs/bufsafe x every capacity 0..required+1 "
+    ctx.cov["rule"] = ("cases = reachable states of the 15 generator specs in specs/bufsafe x every capacity 0..required+1 "
                        "(x max_args for buf2args, x tag path for XML), each run in 3 buffer placements; "
                        "non-trivial = non-empty input; distinct by (operation, input, capacity/extra)")
     ex = [c for c in cases if c.op == "b64enc" and c.exp[3] == c.exp[4] and c.exp[4] > 0][:1] + \
